@@ -116,6 +116,10 @@ func (g *gen) newImage(subject int, shareFrom int) int {
 		o.ConfigMT = "application/vnd.docker.container.image.v1+json"
 	case 1:
 		o.MT = "" // omitted mediaType field
+		if g.r.chance(40) {
+			// … the type the client pushes with is all there is to go by, whatever the config looks like
+			o.ConfigMT = "application/vnd.docker.container.image.v1+json"
+		}
 	default:
 		o.MT = mtOCIManifest
 	}
@@ -533,6 +537,10 @@ func planC01(prop string, seed uint64, tier string, idx int) *Plan {
 			tag := g.r.str("multi", "latest")
 			g.pushManifest(repo, tidx, tag, false)
 			g.add(Op{K: "get", Mode: "tag", Repo: repo, Tag: tag, Accept: g.r.str("other", "other", "all"), Head: g.r.chance(30)})
+			if g.r.chance(50) {
+				// by digest no other manifest can stand in for it, whatever the client accepts
+				g.add(Op{K: "get", Mode: "man", Repo: repo, Obj: tidx, Accept: "other", Head: g.r.chance(30)})
+			}
 		case 13:
 			ti := travIdx[g.r.intn(len(travIdx))]
 			g.add(Op{K: "man", Repo: repo, Obj: ti, Tag: "trav", CT: g.r.str(mtOCIIndex, "none")})
@@ -829,11 +837,23 @@ func planC04(prop string, seed uint64, tier string, idx int) *Plan {
 		case 7:
 			// image manifest with missing blobs sent with an index content type
 			g.add(Op{K: "man", Repo: repo, Obj: g.r.pick(good, good2), Tag: g.r.str("", "sneaky"), CT: g.r.str(mtOCIIndex, mtDockList)})
-		case 8:
-			// bad references
-			g.add(Op{K: "man", Repo: repo, Obj: good, Tag: g.r.str("-bad", ".x", strings.Repeat("t", 129), "a:b", "sha256:abc", "a b")})
-		case 9:
-			g.add(Op{K: "man", Repo: repo, Obj: good, Decl: g.r.str("wrong", "badfmt"), Algo: g.refAlgo()})
+		case 8, 9:
+			// bad references, of a manifest that is complete more often than not (nothing else to refuse it for), also with
+			// a ?digest= that is right
+			if g.r.chance(70) {
+				o := g.p.Objs[good]
+				g.ensureBlob(repo, o.Config)
+				for _, l := range o.Layers {
+					g.ensureBlob(repo, l)
+				}
+			}
+			op := Op{K: "man", Repo: repo, Obj: good, QD: g.r.str("", "", "ok", "ok", "bad"), Algo2: g.refAlgo()}
+			if g.r.chance(50) {
+				op.Tag = g.r.str("-bad", ".x", strings.Repeat("t", 129), "a:b", "sha256:abc", "a b", "v1+build", "-latest")
+			} else {
+				op.Decl, op.Algo = g.r.str("wrong", "badfmt"), g.refAlgo()
+			}
+			g.add(op)
 		case 10:
 			g.add(Op{K: "man", Repo: repo, Obj: good, Tag: "q", QD: g.r.str("ok", "bad", "badfmt"), Algo2: g.refAlgo()})
 		case 11:
